@@ -3,11 +3,12 @@
 From Coq Require Import Extraction ExtrOcamlBasic.
 From Coq Require Import ZArith List.
 From Flocq Require Import Core BinarySingleNaN.
-From DuneV Require Import C17_Model C17_Spec.
+From DuneV Require Import Params_gen C17_Model C17_Spec C17_Defaults.
 Extraction Language OCaml.
 Extraction "c17_model.ml"
   c17_ipower c17_factorial c17_binomial c17_isign c17_inrange c17_fit
-  c17_eq c17_ne c17_gt c17_lt c17_ge c17_le c17_veq c17_flt c17_fgt
+  c17_eq c17_ne c17_gt c17_lt c17_ge c17_le c17_veq c17_vne c17_vgt c17_vlt c17_vge c17_vle c17_flt c17_fgt
+  c17_default_cstyle c17_default_rstyle c17_default_eps
   c17_round c17_trunc c17_binomial_fix c17_round_fix c17_trunc_fix c17_fpower c17_fsign
   c17_isnan c17_isinf c17_isfinite c17_isunordered c17_visnan c17_visinf c17_visfinite
   c17_cisnan c17_cisinf c17_cisfinite
